@@ -840,8 +840,9 @@ func evaluate(c *tcase, honour bool) (res result) {
 			res.fail = br.decode
 			return
 		}
-		// predicate of F9, taken from the compiler's own symbol table
-		facts.globalsAtLimit = br.globals+1 > tengo.GlobalsSize
+		if br.globals >= tengo.GlobalsSize-3 {
+			res.class("globals-within-3-of-GlobalsSize")
+		}
 	}
 
 	// 3. Script API
